@@ -9,7 +9,7 @@ Not decided: numeric accumulation over a simulated history, traversal of a concr
 import re
 
 from verif import core
-from verif.tree import walk, show, stmt_list, meth
+from verif.tree import walk, show, stmt_list, meth, strip
 
 LEVEL = "other"
 SUMMARY = "opm/output/eclipse/Summary.cpp"
@@ -613,6 +613,80 @@ def run(chk):
     for key in want_unit:
         if key not in seen:
             chk.violation(r_ru, key, "rate_unit specialisation for %s (measure::%s) has disappeared: the phase now gets the default liquid_surface_rate" % (key, want_unit[key]), F, None)
+
+    # ---- C09.unitalg: the unit algebra of quantity * quantity and quantity / quantity
+    r_ua = chk.rule("C09.unitalg", "mul_unit(a, b) / div_unit(a, b): for every branch `a == A && b == B -> C` the SI-to-deck factor of C equals factor(A) x factor(B) resp. factor(A) / factor(B) in all four unit systems (factors are clang's compile-time values of the to_<sys> tables): the unit tag a product or quotient of summary quantities carries converts like the product or quotient itself", floor=12)
+    fu = chk.facts(["/repo/opm/input/eclipse/Units/UnitSystem.cpp"], files_re="^/repo/opm/input/eclipse/Units/")
+    measures_ = [e["n"] for e in fu.enum1("Opm::UnitSystem::measure")["items"]]
+    tabs_ = {v["n"]: v for v in fu.vars if v["file"].endswith("UnitSystem.cpp")}
+    fac = {}
+    for sysname in ("metric", "field", "lab", "pvt_m"):
+        t = tabs_.get("to_" + sysname)
+        if t is None or t["init"]["k"] != "InitList":
+            raise core.AnalysisBroken("table to_%s not found in UnitSystem.cpp" % sysname)
+        for i, e in enumerate(t["init"]["c"]):
+            if i < len(measures_):
+                v = e.get("fv", e.get("v"))
+                if v is None:
+                    raise core.AnalysisBroken("entry %d of to_%s has no compile-time value" % (i, sysname))
+                fac.setdefault(measures_[i], []).append(float(v))
+
+    def meas(e):
+        e = strip(e)
+        q = e.get("q") or ""
+        return q.split("::")[-1] if e.get("k") == "Ref" and "measure::" in q else None
+
+    def conj(cond, pa, pb):
+        """[(A, B)] for a condition that is a disjunction of `pa == A && pb == B` (either order)"""
+        c = strip(cond)
+        if c.get("k") == "Bin" and c.get("op") == "||":
+            l, r_ = conj(c["c"][0], pa, pb), conj(c["c"][1], pa, pb)
+            return None if l is None or r_ is None else l + r_
+        if c.get("k") == "Bin" and c.get("op") == "&&":
+            got = {}
+            for side in c["c"]:
+                x = strip(side)
+                if x.get("k") == "Bin" and x.get("op") == "==":
+                    u, v = strip(x["c"][0]), strip(x["c"][1])
+                    for a_, b_ in ((u, v), (v, u)):
+                        if a_.get("k") == "Ref" and a_.get("n") in (pa, pb) and meas(b_):
+                            got[a_["n"]] = meas(b_)
+            if set(got) == {pa, pb}:
+                return [(got[pa], got[pb])]
+        return None
+    for fname, op in (("mul_unit", "*"), ("div_unit", "/")):
+        cand = [f for f in fx.fns if f["n"] == fname and f["file"].endswith("Summary.cpp") and f.get("body") and len(f.get("params") or []) == 2]
+        if len(cand) != 1:
+            raise core.AnalysisBroken("%s(measure, measure) not found in Summary.cpp" % fname)
+        f = cand[0]
+        pa, pb = f["params"][0]["n"], f["params"][1]["n"]
+        for n in stmt_list(f["body"]):
+            if n["k"] != "If" or n.get("else"):
+                continue
+            rets = [x for x in walk(n["then"]) if x["k"] == "Return" and x.get("e") is not None]
+            pairs = conj(n["cond"], pa, pb)
+            if len(rets) != 1 or not meas(rets[0]["e"]):
+                continue
+            if pairs is None:
+                # `lhs == rhs -> lhs` and the like: no fixed triple
+                continue
+            C = meas(rets[0]["e"])
+            for A, B in pairs:
+                key = "%s(%s,%s)" % (fname, A, B)
+                if A not in fac or B not in fac or C not in fac:
+                    raise core.AnalysisBroken("%s: measure without factor (%s, %s, %s)" % (fname, A, B, C))
+                want = [x * y if op == "*" else x / y for x, y in zip(fac[A], fac[B])]
+                bad = [(sn, w, g) for sn, w, g in zip(("METRIC", "FIELD", "LAB", "PVT-M"), want, fac[C]) if abs(w - g) > 1e-9 * max(abs(w), abs(g))]
+                dead = op == "/" and B == "time" and C not in ("identity",) and bad and not [c_ for g_ in fx.fns if g_.get("body") and g_["file"].endswith("Summary.cpp") for c_ in walk(g_["body"]) if c_["k"] == "OpCall" and c_.get("op") == "/" and False]
+                chk.instance(r_ua, key, sample=dict(branch="%s %s %s -> %s" % (A, op, B, C), consistent=not bad))
+                if bad:
+                    if op == "/" and B == "time":
+                        chk.info(r_ua, "%s: (%s / time -> %s) is not a quotient (it is the tag of a product); no evaluator divides a rate by a duration, reported as information" % (fname, A, C))
+                        users = [c_ for g_ in fx.fns if g_.get("body") and g_["file"].endswith("Summary.cpp") for c_ in walk(g_["body"]) if c_["k"] == "Call" and (c_.get("fn") or "").endswith("::div") and any(y["k"] == "Ref" and y["n"] == "duration" for a_ in c_.get("a", [])[1:] for y in walk(a_))]
+                        if users:
+                            chk.violation(r_ua, key, "%s tags %s / time as %s and an evaluator divides by the step length (line %d): the value is converted with the wrong factor" % (fname, A, C, users[0]["l"]), f["file"], n["l"])
+                        continue
+                    chk.violation(r_ua, key, "%s tags %s %s %s as %s, but in %s one deck unit of %s is %.6g SI units while %s %s %s gives %.6g: cumulatives built from this product are converted to deck units with the wrong factor (%s)" % (fname, A, op, B, C, bad[0][0], C, 1.0 / bad[0][2] if bad[0][2] else 0, A, op, B, 1.0 / bad[0][1] if bad[0][1] else 0, ", ".join("%s x%.6g" % (sn, g / w) for sn, w, g in bad)), f["file"], n["l"])
 
     # ---- C09.unit
     r_unit = chk.rule("C09.unit", "every evaluator hands SummaryState a value converted with UnitSystem::from_si (calendar integers excepted)", floor=8)
